@@ -92,7 +92,8 @@ type mgJobSpec struct {
 	Paused       bool   `json:"paused,omitempty"`
 	ByController bool   `json:"by_controller,omitempty"` // created through the real Reconciler.Evict (carries the creator's reconcilerUID)
 	NoPodUID     bool   `json:"no_pod_uid,omitempty"`    // a user-written job without podRef.uid
-	Preset       string `json:"preset,omitempty"`        // user-provided reservationRef: pending | avail-other | avail-same | bound-other
+	Preset       string `json:"preset,omitempty"`        // user-provided reservationRef: pending | avail-other | avail-same | bound-other | consumed-unlisted
+	Template     string `json:"template,omitempty"`      // user-provided reservationOptions.template without a reference: labels (no name) | named (a name of the user's choice)
 }
 
 type mgCfg struct {
@@ -147,7 +148,10 @@ func (mgEngine) Generate(p *sim.Plan, g *sim.Rng) {
 		if !js.ByController {
 			js.NoPodUID = g.Bool(0.3)
 			if g.Bool(0.15) {
-				js.Preset = g.Pick("pending", "avail-other", "avail-same", "bound-other")
+				js.Preset = g.Pick("pending", "avail-other", "avail-same", "bound-other", "consumed-unlisted")
+			} else if g.Bool(0.3) {
+				// the API lets a user customise the Reservation the controller is going to create (labels, a name, ...)
+				js.Template = g.Pick("labels", "labels", "labels", "named")
 			}
 		}
 		cfg.Jobs = append(cfg.Jobs, js)
@@ -205,7 +209,7 @@ func (mgEngine) Generate(p *sim.Plan, g *sim.Rng) {
 		case x < 888:
 			ops = append(ops, mgOp{K: "delresv", J: j})
 		case x < 908:
-			ops = append(ops, mgOp{K: "bindother", J: j})
+			ops = append(ops, mgOp{K: "bindother", J: j, V: g.Intn(8)})
 		case x < 920:
 			ops = append(ops, mgOp{K: "delpod", J: j})
 		case x < 940:
@@ -917,6 +921,12 @@ func (s *mgSim) resvClass(rv *sev1alpha1.Reservation, pod *corev1.Pod, podUID ty
 			return "bound-to-other-pod"
 		}
 	}
+	if rv.Status.Phase == sev1alpha1.ReservationSucceeded && len(rv.Status.CurrentOwners) == 0 {
+		// The reservation was consumed (phase Succeeded: it is allocate-once, nothing can be placed into it any more) and the pod
+		// to be evicted is not its consumer: whoever took it, the capacity is no longer secured for this pod, whether or not the
+		// consumer is (still / already) listed in status.currentOwners.
+		return "consumed-not-by-target-pod"
+	}
 	return ""
 }
 
@@ -1289,10 +1299,14 @@ func (s *mgSim) createJob(j *mgJob) {
 		s.must(s.base.Create(s.ctx, rv), "create preset reservation")
 		s.record("resv", rn)
 		switch j.spec.Preset {
-		case "avail-other", "bound-other":
+		case "avail-other", "bound-other", "consumed-unlisted":
 			s.must(resvutil.SetReservationAvailable(rv, s.otherNode(p, j.idx)), "available")
 			if j.spec.Preset == "bound-other" {
 				rv.Status.CurrentOwners = []corev1.ObjectReference{{Namespace: "default", Name: "someone-else", UID: "uid-someone-else"}}
+				resvutil.SetReservationSucceeded(rv)
+			}
+			if j.spec.Preset == "consumed-unlisted" {
+				// consumed (Succeeded) by a pod that is not (any longer / yet) listed in status.currentOwners
 				resvutil.SetReservationSucceeded(rv)
 			}
 			s.setResvStatus(rv, "preset status")
@@ -1305,6 +1319,13 @@ func (s *mgSim) createJob(j *mgJob) {
 		job.Spec.ReservationOptions = &sev1alpha1.PodMigrateReservationOptions{ReservationRef: &corev1.ObjectReference{
 			Kind: "Reservation", APIVersion: "scheduling.koordinator.sh/v1alpha1", Name: rn, UID: rv.UID}}
 		r.Probe("preset-reservation:" + j.spec.Preset)
+	} else if j.spec.Template != "" {
+		tpl := &sev1alpha1.ReservationTemplateSpec{ObjectMeta: metav1.ObjectMeta{Labels: map[string]string{"team": "a"}}}
+		if j.spec.Template == "named" {
+			tpl.Name = "user-resv-" + fmt.Sprint(j.idx)
+		}
+		job.Spec.ReservationOptions = &sev1alpha1.PodMigrateReservationOptions{Template: tpl}
+		r.Probe("user-reservation-template:" + j.spec.Template)
 	}
 	s.must(s.base.Create(s.ctx, job), "create job")
 	j.created = true
@@ -1521,6 +1542,11 @@ func (s *mgSim) reconcile(j *mgJob) {
 				// history class of a defect repaired by 150b625: a Reservation was created for the job, spec.reservationRef never
 				// reached the store (lost create acknowledgement or failed job update) and the TTL has passed: counted
 				r.Probe("ttl-passed-with-unpersisted-reservation-ref")
+				if rn != string(j.uid) && !j.lastObj.Spec.Paused && !mgTerminal(j.lastObj.Status.Phase) {
+					// history class of a recorded defect: as above, and the Reservation carries a name the user chose in
+					// spec.reservationOptions.template (the clean-up of 150b625 looks only for a Reservation named after the job UID)
+					r.Tag("ttl-passed-with-unpersisted-ref-of-user-named-reservation")
+				}
 			}
 		}
 	}
@@ -1639,11 +1665,19 @@ func (s *mgSim) apply(op mgOp) {
 			r.OpSkipped()
 			return
 		}
-		rv.Status.CurrentOwners = []corev1.ObjectReference{{Namespace: "default", Name: "scale-up-" + fmt.Sprint(j.idx), UID: s.nextUID("pod")}}
+		listed := op.V%4 != 3
+		if listed {
+			rv.Status.CurrentOwners = []corev1.ObjectReference{{Namespace: "default", Name: "scale-up-" + fmt.Sprint(j.idx), UID: s.nextUID("pod")}}
+		}
+		// else: the consumer is not listed (it has already gone again, or the owners list is not filled in yet): the allocate-once
+		// reservation is used up all the same (phase Succeeded)
 		resvutil.SetReservationSucceeded(rv)
 		s.setResvStatus(rv, "bind other")
-		r.Event("env job %d reservation consumed by another pod", j.idx)
+		r.Event("env job %d reservation consumed by another pod (listed=%v)", j.idx, listed)
 		r.Probe("env:reservation-bound-by-other")
+		if !listed {
+			r.Probe("env:reservation-consumed-consumer-unlisted")
+		}
 		r.OpDone()
 	case "delpod":
 		if !needJob() {
